@@ -62,35 +62,35 @@ type NamedTerm struct {
 }
 
 type Obligation struct {
-	Name    string
-	Kind    string
-	Func    string
-	Goal    *Term
-	Guard   *Term
-	NFacts  int
-	Block   int
-	exec    *FnExec
-	Pos     token.Position
-	Clause  string
-	Cover   bool // reachability check: expected SAT
-	Lemma   bool
-	ExtraAs []*Term
-	PkgPath string
-	Script  string
-	Scripts []string // case split: the obligation holds iff every case is unsat
-	ScriptsG []string
-	ScriptG string   // same query with the remaining quantified assumptions dropped
+	Name       string
+	Kind       string
+	Func       string
+	Goal       *Term
+	Guard      *Term
+	NFacts     int
+	Block      int
+	exec       *FnExec
+	Pos        token.Position
+	Clause     string
+	Cover      bool // reachability check: expected SAT
+	Lemma      bool
+	ExtraAs    []*Term
+	PkgPath    string
+	Script     string
+	Scripts    []string // case split: the obligation holds iff every case is unsat
+	ScriptsG   []string
+	ScriptG    string // same query with the remaining quantified assumptions dropped
 	groundPass bool
-	ScriptA string // stage A: no quantified assumptions, no instances
-	ScriptB string // stage B: goal-directed instances only, quantified assumptions dropped
-	split   int
+	ScriptA    string // stage A: no quantified assumptions, no instances
+	ScriptB    string // stage B: goal-directed instances only, quantified assumptions dropped
+	split      int
 	// results
-	Result  string // unsat / sat / unknown / timeout / trivial
-	Solver  string
-	Ms      int64
-	Model   map[string]string
-	RawOut  string
-	Inputs  []NamedTerm
+	Result string // unsat / sat / unknown / timeout / trivial
+	Solver string
+	Ms     int64
+	Model  map[string]string
+	RawOut string
+	Inputs []NamedTerm
 }
 
 type loopInfo struct {
@@ -108,57 +108,57 @@ type loopInfo struct {
 }
 
 type FnExec struct {
-	P        *Prog
-	fn       *ssa.Function
-	key      string
-	con      *Contract
-	vals     map[ssa.Value]Val
-	facts    []*Term
-	obls     []*Obligation
-	cellOf   map[ssa.Value]int
-	cellType map[int]types.Type
-	cellName map[int]string
-	ncell    int
-	in, out  map[*ssa.BasicBlock]*State
-	edge     map[[2]int]*Term
-	loops    map[*ssa.BasicBlock]*loopInfo
-	order    []*ssa.BasicBlock
-	kindN    map[string]int
-	inputs   []NamedTerm
-	ledger   []string
-	entry    *State
-	classes  map[string]string // class name -> sort
-	varAddr  map[types.Object][]ssa.Value
-	nonNil   map[int]*ssa.BasicBlock
-	curBlock *ssa.BasicBlock
-	params   map[string]Val
-	paramTy  map[string]types.Type
-	retStates []*State
-	errs     []string
-	ghost    map[string]*Term
-	assumed  map[string]int
-	iterSeen map[ssa.Value]string
-	closures map[*Term]*ssa.MakeClosure
-	iterCells map[*ssa.Range]int
-	iterSort  map[int]string
-	allocs    []*ssa.Alloc
-	wfDone    map[string]bool
-	epochCtr  map[int]*Term
-	branchAtoms []*Term
-	factBlock []int
-	reachMemo map[[2]int]bool
-	storePos  token.Pos
-	nLookups  int
-	guardN    map[string]int
-	guardSeen map[string]bool
-	callResults map[string]specVar
-	callArgs    map[string][]specVar
-	calledCell  map[string]int
-	panickingVar *Term
-	recoveredCell int
+	P                *Prog
+	fn               *ssa.Function
+	key              string
+	con              *Contract
+	vals             map[ssa.Value]Val
+	facts            []*Term
+	obls             []*Obligation
+	cellOf           map[ssa.Value]int
+	cellType         map[int]types.Type
+	cellName         map[int]string
+	ncell            int
+	in, out          map[*ssa.BasicBlock]*State
+	edge             map[[2]int]*Term
+	loops            map[*ssa.BasicBlock]*loopInfo
+	order            []*ssa.BasicBlock
+	kindN            map[string]int
+	inputs           []NamedTerm
+	ledger           []string
+	entry            *State
+	classes          map[string]string // class name -> sort
+	varAddr          map[types.Object][]ssa.Value
+	nonNil           map[int]*ssa.BasicBlock
+	curBlock         *ssa.BasicBlock
+	params           map[string]Val
+	paramTy          map[string]types.Type
+	retStates        []*State
+	errs             []string
+	ghost            map[string]*Term
+	assumed          map[string]int
+	iterSeen         map[ssa.Value]string
+	closures         map[*Term]*ssa.MakeClosure
+	iterCells        map[*ssa.Range]int
+	iterSort         map[int]string
+	allocs           []*ssa.Alloc
+	wfDone           map[string]bool
+	epochCtr         map[int]*Term
+	branchAtoms      []*Term
+	factBlock        []int
+	reachMemo        map[[2]int]bool
+	storePos         token.Pos
+	nLookups         int
+	guardN           map[string]int
+	guardSeen        map[string]bool
+	callResults      map[string]specVar
+	callArgs         map[string][]specVar
+	calledCell       map[string]int
+	panickingVar     *Term
+	recoveredCell    int
 	constGlobalsUsed []*constGlobal
-	curClosure  *ssa.MakeClosure
-	entryFacts int
+	curClosure       *ssa.MakeClosure
+	entryFacts       int
 }
 
 func (e *FnExec) note(f string, a ...interface{}) {
@@ -1132,6 +1132,15 @@ func (e *FnExec) enterLoop(li *loopInfo, in *State) *State {
 			li.items = append(li.items, its...)
 		}
 	}
+	if li.framed {
+		// every class named in the declared frame may change (inside the frame), whether or not the
+		// scan of the body could tell (a callee's frame is only known once its contract was applied)
+		for _, it := range li.items {
+			if _, ok := classes[it.class]; !ok {
+				classes[it.class] = it.sort
+			}
+		}
+	}
 	if all && !li.framed {
 		e.havocAll(st, "loop with uncontracted call")
 	} else {
@@ -1228,6 +1237,10 @@ func (e *FnExec) backEdge(st *State, from *ssa.BasicBlock, li *loopInfo, cond *T
 	}
 	bs := st.clone()
 	bs.reach = cond
+	// vacuity guard: some iteration must be able to complete under the assumed invariants
+	e.kindN["loopreach"]++
+	e.obls = append(e.obls, &Obligation{Name: fmt.Sprintf("%s:backedge-reachable#%d:loop%d", e.key, e.kindN["loopreach"], li.ordinal), Kind: "vacuity-loop", Func: e.key,
+		Goal: False, Guard: cond, NFacts: len(e.facts), exec: e, Pos: e.pos(from.Instrs[len(from.Instrs)-1].Pos()), Cover: true, Block: -1})
 	// temporarily bind header value-phis to their back-edge operands
 	saved := map[*ssa.Phi]Val{}
 	for _, ins := range li.header.Instrs {
